@@ -221,6 +221,16 @@ def goDecodeSummary (msgs : List Bytes) (block : Bytes) : String :=
       | none => "bad"
     | _, _ => "bad"
 
+/-- split the wire bytes the way the harness writes them into the pipe: chunk sizes cycle through `pat` -/
+def chunkBy (pat : List Nat) : Nat → Nat → Bytes → List Bytes
+  | 0, _, _ => []
+  | _, _, [] => []
+  | fuel + 1, i, s =>
+    let n := match pat[i % pat.length]? with | some k => (if k = 0 then 1 else k) | none => 1048576
+    s.take n :: chunkBy pat fuel (i + 1) (s.drop n)
+
+def parsePattern (s : String) : List Nat := (s.splitOn "/").filterMap String.toNat?
+
 def handleHTTP (i o : List String) : String :=
   match kv? "k" i, kv? "rt" i, (kv? "fr" i).bind (parseList parseFrameD), (kv? "tl" i).bind parseCB,
         (kv? "rs" i).bind (parseList parseCB), (kv? "fs" i).bind parseCodeMsg,
@@ -253,7 +263,12 @@ def handleHTTP (i o : List String) : String :=
         | none =>
           -- model equality
           let mrv := recvTrace rv.length wire
-          let rvOK : Bool := early || oresListEq rv mrv
+          -- the same through the chunked-reader model, with the chunking the harness used (small bodies only)
+          let chunkOK : Bool := wire.length > 200000 ||
+            (match kv? "ck" i with
+             | some ck => decide (recvChunksTraceL maxMsg rv.length (chunkBy (parsePattern ck) (wire.length + 1) 0 wire) = mrv)
+             | none => false)
+          let rvOK : Bool := early || (oresListEq rv mrv && chunkOK)
           let md := match parseTrailer block with | some m => m | none => []
           let bodyOK : Bool := beqB body (respondHTTPWith sd md) &&
             mdLines md == mdLines (trailerWithStatus tr oc om) && subMD tr tm
